@@ -264,3 +264,34 @@ func H_C16_event_wrapper() {
 	}
 	verifReach("C16.eventwrapper.ok")
 }
+
+type hPayload struct {
+	Tok string `class:"sensitive,hmac-sha256"`
+}
+
+// under concurrent rotation each individual value is protected wholly with the old or wholly with the new material
+func H_C16_process_vs_rotate() {
+	oldW, newW := mkWrapper("old"), mkWrapper("new")
+	oldSalt, oldInfo := []byte{1}, []byte{2}
+	newSalt, newInfo := []byte{3}, []byte{4}
+	ef := &Filter{Wrapper: oldW, HmacSalt: oldSalt, HmacInfo: oldInfo}
+	raw := nondetString()
+	e := newEvent(&hPayload{Tok: raw})
+	var out *hPayload
+	verifInterleave(true)
+	verifGo(func() {
+		o, err := ef.Process(context.Background(), e)
+		if err == nil && o != nil {
+			out, _ = o.Payload.(*hPayload)
+		}
+	})
+	verifGo(func() { ef.Rotate(WithWrapper(newW), WithSalt(newSalt), WithInfo(newInfo)) })
+	verifJoin()
+	verifInterleave(false)
+	if out != nil {
+		a := refHmac(oldW, oldSalt, oldInfo, []byte(raw))
+		b := refHmac(newW, newSalt, newInfo, []byte(raw))
+		verifAssert(out.Tok == a || out.Tok == b, "C16.rotation.value-wholly-old-or-wholly-new")
+		verifReach("C16.rotation.end")
+	}
+}
